@@ -174,6 +174,79 @@ func c03uses(body *ast.BlockStmt, p string) []string {
 	return out
 }
 
+// c03roots: the public methods that transmit a request.
+var c03roots = []string{"Get", "GetConfig", "EditConfig", "CopyConfig", "DeleteConfig", "Lock", "Unlock", "Validate", "Commit",
+	"Discard", "RPC", "EstablishPeriodicSubscription"}
+
+// c03reach computes, over the functions of driver/netconf, everything the request methods can call
+// (by name: `d.f(…)`, `f(…)`, `x.f(…)` with f declared in the package) and every field of the
+// receiver those functions read or write (`d.field` where d is the receiver of a *Driver method).
+func c03reach(files map[string]*ast.File) (funcs, fields []string) {
+	decls := map[string][]*ast.FuncDecl{}
+	for _, fname := range facts.SortedNames(files) {
+		for _, d := range files[fname].Decls {
+			if fd, ok := d.(*ast.FuncDecl); ok && fd.Body != nil {
+				decls[fd.Name.Name] = append(decls[fd.Name.Name], fd)
+			}
+		}
+	}
+	seenF, seenFld := map[string]bool{}, map[string]bool{}
+	todo := append([]string{}, c03roots...)
+	for len(todo) > 0 {
+		name := todo[len(todo)-1]
+		todo = todo[:len(todo)-1]
+		if seenF[name] {
+			continue
+		}
+		seenF[name] = true
+		for _, fd := range decls[name] {
+			recv := ""
+			if fd.Recv != nil && len(fd.Recv.List) == 1 && len(fd.Recv.List[0].Names) == 1 {
+				if st, ok := fd.Recv.List[0].Type.(*ast.StarExpr); ok {
+					if id, ok := st.X.(*ast.Ident); ok && id.Name == "Driver" {
+						recv = fd.Recv.List[0].Names[0].Name
+					}
+				}
+			}
+			called := map[ast.Node]bool{}
+			ast.Inspect(fd.Body, func(n ast.Node) bool {
+				switch v := n.(type) {
+				case *ast.CallExpr:
+					called[v.Fun] = true
+					switch f := v.Fun.(type) {
+					case *ast.Ident:
+						if _, ok := decls[f.Name]; ok {
+							todo = append(todo, f.Name)
+						}
+					case *ast.SelectorExpr:
+						if _, ok := decls[f.Sel.Name]; ok {
+							todo = append(todo, f.Sel.Name)
+						}
+					}
+				case *ast.SelectorExpr:
+					if id, ok := v.X.(*ast.Ident); ok && recv != "" && id.Name == recv {
+						if !called[v] {
+							seenFld[v.Sel.Name] = true
+						}
+					}
+				}
+				return true
+			})
+		}
+	}
+	for f := range seenF {
+		if _, ok := decls[f]; ok {
+			funcs = append(funcs, f)
+		}
+	}
+	for f := range seenFld {
+		fields = append(fields, f)
+	}
+	sort.Strings(funcs)
+	sort.Strings(fields)
+	return funcs, fields
+}
+
 func genC03Embedding() string {
 	files := facts.ParseDir(filepath.Join(facts.Repo, "driver/netconf"))
 	type row struct{ fn, param, use string }
@@ -302,6 +375,18 @@ func genC03Embedding() string {
 		}
 		fmt.Fprintf(&b, "  %s%s\n", q(t), sep)
 	}
-	b.WriteString("]\n\nend Scrapli.Gen.C03Embedding\n")
+	b.WriteString("]\n\n")
+	funcs, fields := c03reach(files)
+	list := func(xs []string) string {
+		var qs []string
+		for _, x := range xs {
+			qs = append(qs, q(x))
+		}
+		return "[" + strings.Join(qs, ", ") + "]"
+	}
+	b.WriteString("/-- every function of driver/netconf a request method (Get … EstablishPeriodicSubscription) can reach -/\ndef requestFuncs : List String := " + list(funcs) + "\n\n")
+	b.WriteString("/-- every field of the Driver those functions touch -/\ndef requestFields : List String := " + list(fields) + "\n\n")
+	b.WriteString("/-- what the server advertised (and what was negotiated from it other than the framing version) is out of reach of the request path -/\ndef capsFree : Bool :=\n  !(requestFields.contains \"serverCapabilities\") && !(requestFields.contains \"sessionID\") && !(requestFields.contains \"PreferredVersion\")\n    && !(requestFuncs.contains \"ServerHasCapability\") && !(requestFuncs.contains \"ServerCapabilities\") && !(requestFuncs.contains \"SessionID\")\n    && !(requestFuncs.contains \"processServerCapabilities\") && !(requestFuncs.contains \"determineVersion\")\n\n")
+	b.WriteString("end Scrapli.Gen.C03Embedding\n")
 	return b.String()
 }
